@@ -34,13 +34,14 @@ def fmtOptInt (o : Option Int) : String := match o with | some v => toString v |
 def sortStr (l : List String) : List String := l.mergeSort (fun a b => a ≤ b)
 
 /-- the harness's `obs_records`: live records, steady-clock deadlines, pending with attempts -/
-def fmtChunk (now : Int) (c : ChunkSt) : String :=
+def fmtChunk (off now : Int) (c : ChunkSt) : String :=
   let sh := if live c.shard now then fmtOptInt c.shard else "-"
   let cs := (c.contacts.filter fun pc => decide (now < pc.2)).mergeSort (fun a b => a.1 ≤ b.1)
   let ct := if cs.isEmpty then "-" else ",".intercalate (cs.map fun pc => s!"{pc.1}:{pc.2}")
   let ck := if live c.chunk now then fmtOptInt c.chunk else "-"
   let pf := match c.pending with | some p => s!"{p.exp}:{p.attempts}" | none => "-"
-  s!"sh={sh} ct={ct} ck={ck} pf={pf}"
+  let mc := match c.adopted with | some e => if now + off < e then toString (e / ns) else "-" | none => "-"
+  s!"sh={sh} ct={ct} ck={ck} pf={pf} mc={mc}"
 
 def fmtPendingList (chunks : List (String × ChunkSt)) : String :=
   let items := chunks.filterMap fun (k, c) => c.pending.map fun p => s!"{k}:{p.exp}:{p.attempts}"
@@ -75,7 +76,10 @@ def parseObs (off : Int) (tok : List String) : Option (Obs × Option Nat) := do
       | some e, some a => some (some e, some a)
       | _, _ => none
     | _ => none
-  some ({ shard := shard, contacts := contacts, chunk := chunk, pending := pending }, att)
+  let manifest : Option Int := match kv tok "mc" with
+    | some m => if m == "-" then none else m.toInt?.map (· * ns)
+    | none => none
+  some ({ shard := shard, contacts := contacts, chunk := chunk, pending := pending, manifest := manifest }, att)
 
 /-- records whose deadline has passed are no longer shown by the harness -/
 def age (wall : Int) (o : Obs) : Obs :=
@@ -129,7 +133,7 @@ def manifestOp (st : St) (cfg : Cfg) (c : String) (Es : Int) (path : Path) (rSho
   let shown := (lookup chunks2 c).getD {}
   let fp := if !acc then "same" else ((implTok.bind fun t => kv t "fp").getD "chg")
   let r := if rShown then (if acc then "1" else "0") else "-"
-  let out := s!"r={r} {fmtChunk st.now shown} fp={fp}" ++ (if isAnn then s!" all={fmtPendingList chunks2}" else "")
+  let out := s!"r={r} {fmtChunk st.off st.now shown} fp={fp}" ++ (if isAnn then s!" all={fmtPendingList chunks2}" else "")
   -- monitor ------------------------------------------------------------------------------
   let (mon, verdict) := match implTok, st.mon.win with
     | some t, some (mn, mx) =>
@@ -145,7 +149,9 @@ def manifestOp (st : St) (cfg : Cfg) (c : String) (Es : Int) (path : Path) (rSho
         let mon2 := if assignedAnn && implAcc && newObs.pending.isSome then { mon1 with annE := insert mon1.annE c E } else mon1
         let v1 := match judge E wall mn mx oldObs newObs unchanged with
           | some why => "viol:" ++ why
-          | none => "ok"
+          | none => match judgeShares newObs with
+            | some why => "viol:" ++ why
+            | none => "ok"
         let table := (kv t "all").map parsePendingList
         -- the scheduler pass of an announce only runs when the announce was accepted and went on to
         -- schedule a fetch (its own entry is then in the table)
@@ -188,13 +194,17 @@ def step (st : St) (tok : List String) (_line : String) (impl : Option String) :
     match st.cfg with
     | none => (st, "no-node", "ok")
     | some _ =>
-      let out := s!"r=- {fmtChunk st.now (getChunk st c)} fp=same"
-      let mon := match impl.bind (fun l => parseObs st.off (tokens l)) with
+      let out := s!"r=- {fmtChunk st.off st.now (getChunk st c)} fp=same"
+      let seen := impl.bind (fun l => parseObs st.off (tokens l))
+      let verdict := match seen with
+        | some (o, _) => match judgeShares o with | some why => "viol:" ++ why | none => "ok"
+        | none => "ok"
+      let mon := match seen with
         | some (o, att) =>
           let m := { st.mon with obs := insert st.mon.obs c o }
           match att with | some a => { m with att := insert m.att c a } | none => m
         | none => st.mon
-      ({ st with mon := mon }, out, "ok")
+      ({ st with mon := mon }, out, verdict)
   | ["ingest", c, e] =>
     match st.cfg, e.toInt? with
     | some cfg, some e => manifestOp st cfg c e .ingest true impl
